@@ -1,5 +1,6 @@
 import SqlObjVerif.Lemmas.Codec
 import SqlObjVerif.Lemmas.CodecXChain
+import SqlObjVerif.Lemmas.CodecXSel
 /-!
 # C01 — stored values read back unchanged; a query for the value finds the row; any other accepted
 value is normalised or rejected, never stored unreadable
@@ -341,13 +342,14 @@ theorem C01_translated_BinaryValidator_from_python_eq_model (v : PyVal) :
   binFromPython_eq v
 
 /-- the chain `createValidators()` builds (extracted lists), joined as `compound.All` does: `col.from_python` and
-    `col.to_python` of every column kind whose validators are all translated are the hand model's `toDb` / `toPy` -/
+    `col.to_python` of EVERY column kind (all validators are translated) are the hand model's `toDb` / `toPy` -/
 theorem C01_translated_createValidators_chain_eq_model (T : ColT) (hT : translatedKind T = true) (v : PyVal) :
     chainToDb T v = some (Codec.toDb T v) ∧ chainToPy T v = some (Codec.toPy T v) :=
   ⟨chainToDb_eq T hT v, chainToPy_eq T hT v⟩
 
 example : chainOf .blob = ["BinaryValidator", "StringValidator"] := rfl
-example : translatedKind (.enum []) = true ∧ translatedKind .float = false := ⟨rfl, rfl⟩
+example : translatedKind (.enum []) = true ∧ translatedKind .float = true := ⟨rfl, rfl⟩
+example : chainOf .pickle = ["PickleValidator", "BinaryValidator", "StringValidator"] ∧ chainOf .json = ["JSONValidator"] := ⟨rfl, rfl⟩
 
 /-! ## the round-trip theorems, about the translated source -/
 
@@ -414,5 +416,118 @@ example : readBackT .timestamp (.datetime 1 1 1 0 0 0 1) = some (.ok (.datetime 
 example : runV (cfgDt fmtDateTimeStr) dtToPython (.str [50, 48, 50, 48, 45, 48, 49, 45, 48, 50, 32, 48, 51, 58, 48, 52, 58, 48, 53, 46, 53])
     = some (.ok (.datetime 2020 1 2 3 4 5 500000)) := by decide   -- '2020-01-02 03:04:05.5'
 example : runV cfgInt intToPython (.float (.lit [50, 46, 53])) = some .invalid := by decide
+
+/-! ## the remaining validators: the stdlib codecs are abstract (a value is identified with its encoding) -/
+
+theorem C01_translated_FloatValidator_to_python_eq_model (v : PyVal) :
+    runV Cfg.base floatToPython v = some (Codec.floatV v) ∧ runV Cfg.base floatFromPython v = some (Codec.floatV v) :=
+  ⟨floatToPython_eq v, floatToPython_eq v⟩
+
+theorem C01_translated_UuidValidator_to_python_eq_model (v : PyVal) :
+    runV Cfg.base uuidToPython v = some (Codec.toPy .uuid v) :=
+  uuidToPython_eq v
+
+theorem C01_translated_UuidValidator_from_python_eq_model (v : PyVal) :
+    runV Cfg.base uuidFromPython v = some (Codec.toDb .uuid v) :=
+  uuidFromPython_eq v
+
+theorem C01_translated_JSONValidator_to_python_eq_model (v : PyVal) :
+    runV Cfg.base jsonToPython v = some (Codec.toPy .json v) :=
+  jsonToPython_eq v
+
+theorem C01_translated_JSONValidator_from_python_eq_model (v : PyVal) :
+    runV Cfg.base jsonFromPython v = some (Codec.toDb .json v) :=
+  jsonFromPython_eq v
+
+/-- PickleValidator is the first of the chain Pickle, Binary, String: alone it is `pickle.dumps` / `pickle.loads` on the
+    token (`pickleFromM` / `pickleToM`); the whole chain is `toDb .pickle` / `toPy .pickle` (chain theorem above) -/
+theorem C01_translated_PickleValidator_eq_model (v : PyVal) :
+    runV Cfg.base pickleFromPython v = some (pickleFromM v) ∧ runV Cfg.base pickleToPython v = some (pickleToM v) :=
+  ⟨pickleFromPython_eq v, pickleToPython_eq v⟩
+
+/-- DecimalStringValidator (`quantize=False`); `super()` runs the translated DecimalValidator -/
+theorem C01_translated_DecimalStringValidator_from_python_eq_model (v : PyVal) :
+    runV cfgDecStr decStrFromPython v = some (Codec.toDb .decimalString v) :=
+  decStrFromPython_eq v
+
+theorem C01_translated_DecimalStringValidator_to_python_eq_model (v : PyVal) :
+    runV cfgDecStr decStrToPython v = some (decStrToM v) :=
+  decStrToPython_eq v
+
+/-- `dec ∘ enc = id` (built into the tokens) ⇒ round trip: the text codecs through the translated chains, the quoting,
+    the TEXT column and the driver -/
+theorem C01_translated_roundtrip_text_codec (t : Str) (h0 : 0 ∉ t) :
+    readBackT .uuid (.uuid t) = some (.ok (.uuid t)) ∧ readBackT .json (.json t) = some (.ok (.json t)) ∧
+    readBackT .decimalString (.decimal t) = some (.ok (.decimal t)) := by
+  have hu := Codec.C01_glue_text_codec .uuid (Or.inr (Or.inl rfl)) t h0
+  have hj := Codec.C01_glue_text_codec .json (Or.inr (Or.inr rfl)) t h0
+  have hd := Codec.C01_glue_text_codec .decimalString (Or.inl rfl) t h0
+  refine ⟨?_, ?_, ?_⟩ <;> rw [readBackT_eq _ rfl] <;>
+    simp [Codec.readBack, Codec.toDb, Codec.toPy, Codec.Res.bind, Codec.stringV, hu, hj, hd]
+
+theorem C01_translated_roundtrip_Pickle (bs : Str) (hb : ∀ x ∈ bs, x < 256) :
+    readBackT .pickle (.pickled bs) = some (.ok (.pickled bs)) := by
+  rw [readBackT_eq _ rfl, Codec.C01_glue_Pickle bs hb]
+
+/-! ## `_SO_selectInit`: the read path -/
+
+/-- the translated `to_python` loop of `SQLObject._SO_selectInit` (each `col.to_python` = the translated chain of the
+    column's kind) = the model's read path, for EVERY column list and EVERY fetched row: attributes `_SO_val_<name>` :=
+    `toPy kind value` in column order, stopping at the first conversion that fails (what was assigned stays assigned) -/
+theorem C01_translated_selectInit_eq_model (cols : List (Str × ColT)) (row : List PyVal) :
+    runSel cols row = some (selectInitM cols row []) :=
+  runSel_eq cols row
+
+/-- when the conversion succeeds the instance gets the attribute with the `toPy` value -/
+theorem C01_translated_selectInit_all_ok (c : Str × ColT) (v y : PyVal) (h : Codec.toPy c.2 v = .ok y) :
+    runSel [c] [v] = some (.ok [(sValPrefix ++ c.1, y)]) := by
+  rw [runSel_eq]; simp [selectInitM, h]
+
+example : runSel [([97], .int), ([98], .bool)] [.int 5, .int 1] =
+    some (.ok [(sValPrefix ++ [97], .int 5), (sValPrefix ++ [98], .bool true)]) := by
+  rw [runSel_eq]; decide
+example : runSel [([97], .int), ([98], .date)] [.int 5, .str [120]] = some (.invalid [(sValPrefix ++ [97], .int 5)]) := by
+  rw [runSel_eq]; decide
+
+/-! ## non-vacuity: the interpreter runs the translated source on concrete values (kernel evaluation) -/
+
+example : runV cfgInt intToPython (.int 5) = some (.ok (.int 5)) := by decide
+example : runV cfgInt intToPython (.str [53]) = some .invalid := by decide
+example : runV cfgInt intToPython (.float (.lit [50, 46, 48])) = some (.ok (.int 2)) := by decide          -- 2.0
+example : runV Cfg.base boolToPython (.int 3) = some (.ok (.bool true)) := by decide
+example : runV Cfg.base boolToPython (.str [49]) = some .invalid := by decide
+example : runV (cfgString false) stringToPython (.bytes [1, 2]) = some (.ok (.bytes [1, 2])) := by decide
+example : runV (cfgString false) stringToPython (.int 1) = some .invalid := by decide
+example : runV Cfg.base unicodeToPython (.str [233]) = some (.ok (.str [233])) := by decide
+example : runV Cfg.base unicodeFromPython (.bytes [1]) = some .invalid := by decide
+example : runV (cfgEnum [[97], [98]]) enumToPython (.str [98]) = some (.ok (.str [98])) := by decide
+example : runV (cfgEnum [[97], [98]]) enumToPython (.str [99]) = some .invalid := by decide
+example : runV (cfgFkInt true) fkFromPython (.str [52, 50]) = some (.ok (.int 42)) := by decide              -- '42'
+example : runV (cfgFkInt false) fkFromPython (.sqlobj 7) = some (.ok (.int 7)) := by decide
+example : runV (cfgFkInt true) fkFromPython (.date 2020 1 2) = some .invalid := by decide
+example : runV (cfgFkStr true) fkFromPython (.int 7) = some (.ok (.str (Codec.reprInt 7))) := rfl
+example : runV (cfgDt fmtDateTimeStr) dtFromPython (.date 2020 1 2) = some (.ok (.datetime 2020 1 2 0 0 0 0)) := by decide
+example : runV (cfgDt fmtDateTimeStr) dtFromPython (.time 1 2 3 4) = some .invalid := by decide
+example : runV (cfgDtSub fmtDateStr) dateToPython (.str [50, 48, 50, 48, 45, 48, 49, 45, 48, 50]) =
+    some (.ok (.date 2020 1 2)) := by decide                                                                 -- '2020-01-02'
+example : runV (cfgDtSub fmtDateStr) dateToPython (.datetime 2020 1 2 3 4 5 6) = some (.ok (.date 2020 1 2)) := by decide
+example : runV (cfgDtSub fmtTimeStr) timeToPython (.str [48, 51, 58, 48, 52, 58, 48, 53]) =
+    some (.ok (.time 3 4 5 0)) := by decide                                                                  -- '03:04:05'
+example : runV (cfgDtSub fmtTimeStr) timeToPython (.date 2020 1 2) = some .invalid := by decide
+example : runV Cfg.base decToPython (.int 5) = some (.ok (.decimal (Codec.reprInt 5))) := rfl
+example : runV Cfg.base decFromPython (.bytes []) = some .invalid := by decide
+example : runV Cfg.base binFromPython (.bytes [104, 105]) = some (.ok (.str [97, 71, 107, 61])) := by decide   -- b'hi' -> 'aGk='
+example : runV Cfg.base binToPython (.str [97, 71, 107, 61]) = some (.ok (.bytes [104, 105])) := by decide
+example : runV Cfg.base binToPython (.str [33]) = some .reject := by decide
+example : runV Cfg.base floatToPython (.int 2) = some (.ok (.int 2)) := by decide
+example : runV Cfg.base floatToPython (.str [49]) = some .invalid := by decide
+example : runV Cfg.base uuidFromPython (.uuid [97]) = some (.ok (.str [97])) := by decide
+example : runV Cfg.base uuidToPython (.bytes [97]) = some .invalid := by decide
+example : runV Cfg.base jsonFromPython (.json [123, 125]) = some (.ok (.str [123, 125])) := by decide        -- {}
+example : runV Cfg.base jsonToPython (.str [123, 125]) = some (.ok (.json [123, 125])) := by decide
+example : runV Cfg.base pickleFromPython (.pickled [128, 5]) = some (.ok (.bytes [128, 5])) := by decide
+example : runV Cfg.base pickleToPython (.bytes [128, 5]) = some (.ok (.pickled [128, 5])) := by decide
+example : runV cfgDecStr decStrFromPython (.decimal [49, 46, 53]) = some (.ok (.str [49, 46, 53])) := by decide
+example : runV cfgDecStr decStrToPython (.str [49, 46, 53]) = some (.ok (.decimal [49, 46, 53])) := by decide
 
 end SqlObjVerif.PyCodec
